@@ -16,7 +16,8 @@ fn fabs<F: Scalar>(x: F) -> F {
     NF::abs(x)
 }
 fn close<F: Scalar>(a: F, b: F, t: F) -> SymB {
-    fabs(a - b).s_le(t)
+    // two one-sided comparisons: the solver handles them far better than an `ite`-encoded absolute value
+    (a - b).s_le(t).and((b - a).s_le(t))
 }
 fn sum<F: Scalar>(xs: impl Iterator<Item = F>) -> F {
     let mut s = F::lit(0.0);
@@ -145,38 +146,73 @@ fn linear<F: Scalar>(p: &Params) {
     if off.len() != pc || sc.len() != pc {
         return;
     }
+    let observable = true;
     for j in 0..pc {
         observe(off[j]);
-        observe(sc[j]);
+        if observable {
+            observe(sc[j]);
+        }
     }
 
-    // ---- fitted parameters against the textbook statistics
+    let part = p.u("part", 0);
+    // col >= 0: only the obligations of that column (smaller solver queries; the exploration is the same)
+    let only = p.get("col", -1);
+    let sel = |j: usize| only < 0 || only as usize == j;
+    // ob >= 0: only that obligation group (the engine puts all obligations of a path into one query)
+    let ob = p.get("ob", -1);
+    let cg = |g: i64, name: &str, c: SymB| {
+        if ob < 0 || ob == g {
+            check(name, c)
+        }
+    };
+    let p2 = |x: f64| -> f64 {
+        let mut q = 1.0f64;
+        while q < x {
+            q *= 2.0;
+        }
+        q
+    };
+    let bf = b as f64;
+    // absolute tolerances: 2^-30 relative to the largest magnitude the compared quantity can take on the domain
+    // (constants: the solver copes badly with tolerances that are themselves non-linear terms)
+    let t_one = tol::<F>(30);
+    let t_lin = F::lit(p2(2.0 * n as f64 * bf) * (2.0f64).powi(-30));
+    let t_var = F::lit(p2((n * n) as f64 * bf * bf) * (2.0f64).powi(-30));
+    // standard deviation of every column, by ndarray (auxiliary value: its defining relation to the moment
+    // sums is itself an obligation below)
+    let sd: Vec<F> = if method == STD || method == STD_NO_MEAN { x.std_axis(ndarray::Axis(0), zero).to_vec() } else { vec![one; pc] };
+
+    // ---- part 0: fitted parameters against the textbook statistics
     for j in 0..pc {
+        if part != 0 {
+            break;
+        }
+        if !sel(j) {
+            continue;
+        }
         match method {
             STD | STD_NO_MEAN | STD_NO_STD | STD_NEITHER => {
                 let s = csum[j] + mu(1);
-                check("standard.offset * n == column sum", close(off[j] * nf, s, tol::<F>(30) * (one + fabs(s))));
+                cg(1, "standard.offset * n == column sum", close(off[j] * nf, s, t_lin));
                 if method == STD || method == STD_NO_MEAN {
-                    let constant = cv[j].s_eq(zero).and(sc[j].s_eq(one));
-                    let n2 = nf * nf + mu(1);
-                    let scaled = zero.s_lt(cv[j]).and(zero.s_lt(sc[j])).and(close(sc[j] * sc[j] * cv[j], n2, tol::<F>(30) * n2));
-                    check("standard.scale == 1 for a constant column, 1/std otherwise (scale^2 * n^2 Var == n^2)", constant.or(scaled));
+                    let constant = cv[j].s_eq(zero);
+                    cg(2, "standard.scale == 1 for a constant column", constant.not().or(sc[j].s_eq(one + mu(1))));
+                    cg(3, "standard.scale * std == 1 for a non-constant column", constant.or(close(sc[j] * sd[j], one + mu(1), t_one)));
+                    cg(4, "standard.std >= 0 and n^2 std^2 == n sum x^2 - (sum x)^2", zero.s_le(sd[j]).and(close(nf * nf * (sd[j] * sd[j]), cv[j] + mu(1), t_var)));
                 } else {
-                    check("standard.scale == 1 without std", sc[j].s_eq(one + mu(1)));
+                    cg(2, "standard.scale == 1 without std", sc[j].s_eq(one + mu(1)));
                 }
             }
             MINMAX => {
-                check("minmax.offset == column minimum", off[j].s_eq(cmin[j] + mu(1)));
+                cg(1, "minmax.offset == column minimum", off[j].s_eq(cmin[j] + mu(1)));
                 let w = cmax[j] - cmin[j];
-                let constant = w.s_eq(zero).and(sc[j].s_eq(one));
-                let scaled = zero.s_lt(w).and(close(sc[j] * w, one + mu(1), tol::<F>(30)));
-                check("minmax.scale == 1 for a constant column, 1/(max-min) otherwise", constant.or(scaled));
+                cg(2, "minmax.scale == 1 for a constant column", w.s_eq(zero).not().or(sc[j].s_eq(one + mu(1))));
+                cg(3, "minmax.scale * (max - min) == 1 for a non-constant column", w.s_eq(zero).or(close(sc[j] * w, one + mu(1), t_one)));
             }
             _ => {
-                check("maxabs.offset == 0", off[j].s_eq(zero + mu(1)));
-                let constant = cabs[j].s_eq(zero).and(sc[j].s_eq(one));
-                let scaled = zero.s_lt(cabs[j]).and(close(sc[j] * cabs[j], one + mu(1), tol::<F>(30)));
-                check("maxabs.scale == 1 for an all-zero column, 1/max|x| otherwise", constant.or(scaled));
+                cg(1, "maxabs.offset == 0", off[j].s_eq(zero + mu(1)));
+                cg(2, "maxabs.scale == 1 for an all-zero column", cabs[j].s_eq(zero).not().or(sc[j].s_eq(one + mu(1))));
+                cg(3, "maxabs.scale * max|x| == 1 for a non-zero column", cabs[j].s_eq(zero).or(close(sc[j] * cabs[j], one + mu(1), t_one)));
             }
         }
     }
@@ -194,7 +230,9 @@ fn linear<F: Scalar>(p: &Params) {
     for i in 0..n {
         for j in 0..pc {
             same &= out[(i, j)].identical(out_arr[(i, j)]);
-            observe(out[(i, j)]);
+            if observable {
+                observe(out[(i, j)]);
+            }
         }
     }
     check_bool("dataset and array transform give identical records", same);
@@ -206,55 +244,92 @@ fn linear<F: Scalar>(p: &Params) {
             _ => core,
         }
     };
-    for i in 0..n {
-        for j in 0..pc {
-            let e = affine(x[(i, j)], j) + mu(2);
-            check("transform == affine map given by offsets() / scales() (and the range)", close(out[(i, j)], e, tol::<F>(30) * (one + fabs(e))));
+    if part == 0 {
+        for i in 0..n {
+            for j in (0..pc).filter(|&j| sel(j)) {
+                let e = affine(x[(i, j)], j) + mu(2);
+                cg(5, "transform == affine map given by offsets() / scales() (and the range)", close(out[(i, j)], e, tol::<F>(30) * (one + fabs(e))));
+            }
         }
     }
 
-    // ---- postconditions of the statement, per column of the transformed training data
+    // ---- part 1: postconditions of the statement, per column of the transformed training data.
+    // Where the direct statement needs products of rounded terms the solver cannot expand (unit variance,
+    // range ends with a symbolic range) it is stated through a cross-multiplied witness:
+    //   out * std == x - mean  with  n^2 std^2 == n^2 Var(x)  (part 0)      =>  Var(out) == 1
+    //   out == lo + u (hi - lo) (part 0, affine) with min u == 0, max u == 1  =>  both range ends attained
+    // and the direct form is part 2.
     for j in 0..pc {
+        if part != 1 && part != 2 {
+            break;
+        }
+        if !sel(j) {
+            continue;
+        }
         let oc: Vec<F> = out.column(j).to_vec();
         let so = sum(oc.iter().copied());
         let vo = nf * sum(oc.iter().map(|&v| v * v)) - so * so; // n^2 Var(out)
-        let sabs = sum(col(j).into_iter().map(fabs));
         let n2 = nf * nf + mu(3);
         let constant = cv[j].s_eq(zero);
-        match method {
-            STD => {
-                check("standard: zero mean", fabs(so).s_le(tol::<F>(30) * nf - mu(3)));
-                check("standard: unit variance on a non-constant column", constant.or(close(vo, n2, tol::<F>(30) * n2)));
-                let centred = SymB::all(&oc.iter().map(|&v| fabs(v).s_le(tol::<F>(30) - mu(3))).collect::<Vec<_>>());
-                check("standard: a constant column is only centred", constant.not().or(centred));
+        // n (x_i - mean)
+        let centred: Vec<F> = (0..n).map(|i| nf * x[(i, j)] - csum[j]).collect();
+        match (method, part) {
+            (STD, 1) => {
+                cg(11, "standard: zero mean", fabs(so).s_le(t_one * nf - mu(3)));
+                for i in 0..n {
+                    cg(12, "standard: n * out * std == n * (x - mean) on a non-constant column", constant.or(close(nf * (oc[i] * sd[j]), centred[i] + mu(3), t_lin)));
+                    cg(13, "standard: a constant column is only centred", constant.not().or(fabs(oc[i]).s_le(t_one - mu(3))));
+                }
             }
-            STD_NO_MEAN => {
-                check("standard_no_mean: keeps the mean", close(so, csum[j] + mu(3), tol::<F>(30) * (one + sabs)));
-                check("standard_no_mean: unit variance on a non-constant column", constant.or(close(vo, n2, tol::<F>(30) * n2)));
-                let kept = SymB::all(&(0..n).map(|i| close(oc[i], x[(i, j)] + mu(3), tol::<F>(30) * (one + sabs))).collect::<Vec<_>>());
-                check("standard_no_mean: a constant column is unchanged", constant.not().or(kept));
+            (STD, 2) | (STD_NO_MEAN, 2) => {
+                cg(21, "standard: unit variance on a non-constant column", constant.or(close(vo, n2, t_one * n2)));
+                cg(22, "standard: scale^2 * n^2 Var == n^2 on a non-constant column", constant.or(close(sc[j] * sc[j] * cv[j], n2, t_one * n2)));
             }
-            STD_NO_STD => {
-                check("standard_no_std: zero mean", fabs(so).s_le(tol::<F>(30) * (one + sabs) - mu(3)));
-                check("standard_no_std: keeps the spread", close(vo, cv[j] + mu(3), tol::<F>(30) * (one + cv[j])));
+            (STD_NO_MEAN, 1) => {
+                cg(11, "standard_no_mean: keeps the mean", close(so, csum[j] + mu(3), t_lin));
+                for i in 0..n {
+                    cg(12, "standard_no_mean: (n * out - sum x) * std == n * (x - mean) on a non-constant column", constant.or(close((nf * oc[i] - csum[j]) * sd[j], centred[i] + mu(3), t_lin)));
+                    cg(13, "standard_no_mean: a constant column is unchanged", constant.not().or(close(oc[i], x[(i, j)] + mu(3), t_lin)));
+                }
             }
-            STD_NEITHER => {
-                check("standard(false,false): keeps the mean", close(so, csum[j] + mu(3), tol::<F>(30) * (one + sabs)));
-                check("standard(false,false): keeps the spread", close(vo, cv[j] + mu(3), tol::<F>(30) * (one + cv[j])));
+            (STD_NO_STD, 1) => {
+                cg(11, "standard_no_std: zero mean", fabs(so).s_le(t_lin - mu(3)));
+                cg(12, "standard_no_std: keeps the spread", close(vo, cv[j] + mu(3), t_var));
             }
-            MINMAX => {
+            (STD_NEITHER, 1) => {
+                cg(11, "standard(false,false): keeps the mean", close(so, csum[j] + mu(3), t_lin));
+                cg(12, "standard(false,false): keeps the spread", close(vo, cv[j] + mu(3), t_var));
+            }
+            (MINMAX, 1) => {
+                // unit-interval witness u_i = (x_i - offset) * scale
+                let u: Vec<F> = (0..n).map(|i| (x[(i, j)] - off[j]) * sc[j]).collect();
+                let nonconst = cmin[j].s_lt(cmax[j]);
+                let umin = fold(u.iter().copied(), NF::min);
+                let umax = fold(u.iter().copied(), NF::max);
+                cg(12, "minmax: on a non-constant column the unit-interval image attains 0 as its minimum", nonconst.not().or(close(umin, zero + mu(3), t_one)));
+                cg(13, "minmax: on a non-constant column the unit-interval image attains 1 as its maximum", nonconst.not().or(close(umax, one + mu(3), t_one)));
+                for i in 0..n {
+                    let e = lo + u[i] * (hi - lo) + mu(3);
+                    cg(14, "minmax: output == min + unit-interval image * (max - min)", close(oc[i], e, tol::<F>(30) * (one + fabs(e))));
+                }
+            }
+            (MINMAX, 2) => {
                 let t = tol::<F>(30) * (one + fabs(lo) + fabs(hi));
                 let omin = fold(oc.iter().copied(), NF::min);
                 let omax = fold(oc.iter().copied(), NF::max);
                 let nonconst = cmin[j].s_lt(cmax[j]);
-                check("minmax: a non-constant column attains the lower end of the range as its minimum", nonconst.not().or(close(omin, lo + mu(3), t)));
-                check("minmax: a non-constant column attains the upper end of the range as its maximum", nonconst.not().or(close(omax, hi + mu(3), t)));
+                cg(21, "minmax: a non-constant column attains the lower end of the range as its minimum", nonconst.not().or(close(omin, lo + mu(3), t)));
+                cg(22, "minmax: a non-constant column attains the upper end of the range as its maximum", nonconst.not().or(close(omax, hi + mu(3), t)));
             }
-            _ => {
+            (MAXABS, 1) => {
                 let oabs = fold(oc.iter().map(|&v| fabs(v)), NF::max);
-                check("maxabs: a non-zero column has maximum absolute value one", cabs[j].s_eq(zero).or(close(oabs, one + mu(3), tol::<F>(30))));
+                cg(12, "maxabs: a non-zero column has maximum absolute value one", cabs[j].s_eq(zero).or(close(oabs, one + mu(3), t_one)));
             }
+            _ => {}
         }
+    }
+    if part != 0 {
+        return;
     }
 
     // ---- a fixed row-wise map: reordered rows and an unseen row, in one other matrix and alone
@@ -275,9 +350,13 @@ fn linear<F: Scalar>(p: &Params) {
         let mut same_alone = alone.dim() == (1, pc);
         for j in 0..pc {
             let e = affine(z[j], j) + mu(5);
-            check("unseen row: transform == the same affine map", close(oy[(n, j)], e, tol::<F>(30) * (one + fabs(e))));
+            if sel(j) {
+                cg(6, "unseen row: transform == the same affine map", close(oy[(n, j)], e, tol::<F>(30) * (one + fabs(e))));
+            }
             same_alone = same_alone && alone[(0, j)].identical(oy[(n, j)]);
-            observe(oy[(n, j)]);
+            if observable {
+                observe(oy[(n, j)]);
+            }
         }
         check_bool("unseen row: same image alone and inside another matrix (identical)", same_alone);
     }
@@ -287,6 +366,13 @@ fn norm<F: Scalar>(p: &Params) {
     let (n, pc, kind, b) = (p.u("n", 2), p.u("p", 2), p.u("norm", 1), p.get("B", 64));
     let mutk = p.get("mut", 0);
     let zero_row = p.get("zero", -1);
+    // ob >= 0: only that obligation group (1 unit norm directly, 2 out * N == x, 3 N is the norm)
+    let ob = p.get("ob", -1);
+    let cg = |g: i64, name: &str, c: SymB| {
+        if ob < 0 || ob == g {
+            check(name, c)
+        }
+    };
     let mu = |k: i64| if mutk == k { F::lit(1.0) } else { F::lit(0.0) };
     let (zero, one) = (F::lit(0.0), F::lit(1.0));
     let mut x = matrix::<F>("x", n, pc, b);
@@ -334,15 +420,25 @@ fn norm<F: Scalar>(p: &Params) {
             2 => sum(r.iter().map(|&v| v * v)),
             _ => fold(r.iter().map(|&v| fabs(v)), NF::max),
         };
-        check("norm: a non-zero row has unit norm (l2: squared)", close(nrm, one + mu(1), tol::<F>(30)));
-        // same direction as the input row: proportional with a non-negative factor
+        cg(1, "norm: a non-zero row has unit norm (l2: squared)", close(nrm, one + mu(1), tol::<F>(30)));
+        // cross-multiplied form with the norm of the input row as auxiliary value N:
+        //   out_j * N == x_j   and   N is the norm of the row (N >= 0; l2: N^2 == sum x^2)   =>  ||out|| = 1, same direction
+        let xr = x.row(i);
+        let nn: F = match kind {
+            1 => xr.iter().map(|v| fabs(*v)).sum(),
+            2 => NF::sqrt(xr.iter().map(|&v| v * v).sum::<F>()),
+            _ => xr.iter().fold(zero, |f, &v| NF::max(fabs(v), f)),
+        };
+        let t_x = F::lit(b as f64 * (2.0f64).powi(-30));
         for j in 0..pc {
-            check("norm: output keeps the sign of the input", zero.s_le(r[j] * x[(i, j)] - mu(2)));
-            for k in (j + 1)..pc {
-                let t = tol::<F>(30) * (one + fabs(x[(i, j)]) + fabs(x[(i, k)]));
-                check("norm: output row is proportional to the input row", close(r[j] * x[(i, k)], r[k] * x[(i, j)] + mu(2), t));
-            }
+            cg(2, "norm: output * norm of the input row == input", close(r[j] * nn, x[(i, j)] + mu(2), t_x));
         }
+        let textbook = match kind {
+            1 => nn.s_eq(sum(xr.iter().map(|&v| fabs(v))) + mu(3)),
+            2 => zero.s_le(nn).and(close(nn * nn, sum(xr.iter().map(|&v| v * v)) + mu(3), t_x * F::lit(b as f64 * pc as f64))),
+            _ => nn.s_eq(fold(xr.iter().map(|&v| fabs(v)), NF::max) + mu(3)),
+        };
+        cg(3, "norm: the auxiliary value is the l1 / l2 / max norm of the input row", textbook);
     }
     // row-wise: a reordered matrix, and every row alone
     let rot: Vec<usize> = (0..n).map(|i| (i + 1) % n).collect();
@@ -393,11 +489,11 @@ fn errors<F: Scalar>(_p: &Params) {
 
 pub fn register(v: &mut Vec<HarnessDef>) {
     harness!(v, "c16.linear", "C16", linear,
-        "LinearScaler (method 0 standard, 1 no mean, 2 no std, 3 neither, 4 min-max [range=0 symbolic range, 1 default], 5 max-abs) fitted on a symbolic n x p integer matrix incl. constant / zero columns: fitted offsets/scales == textbook statistics, transform == affine map, postconditions of the statement, reordered + unseen rows, metadata",
-        ["linfa_preprocessing::linear_scaling::ScalingMethod::{fit,standardize,min_max,max_abs}", "LinearScalerParams::fit", "LinearScaler::{offsets,scales}", "<LinearScaler as Transformer<Array2>>::transform", "<LinearScaler as Transformer<DatasetBase>>::transform", "ndarray mean_axis / std_axis (Welford), linfa_linalg::norm::Norm::norm_max"],
-        ["entries are integers in [-B,B], min-max range ends integers in [-R,R]", "f64 only", "sqrt / division are rounded: obligations on scales and outputs carry a relative tolerance 2^-30"]);
+        "LinearScaler (method 0 standard, 1 no mean, 2 no std, 3 neither, 4 min-max [range=0 symbolic range, 1 default], 5 max-abs) fitted on a symbolic n x p integer matrix incl. constant / zero columns. part 0: fitted offsets/scales == textbook statistics (ob 1-4), transform == affine map from offsets()/scales() (5), unseen row (6), reordered rows / dataset vs array identical, metadata; part 1: postconditions of the statement (11 mean, 12 spread, 13 constant column / upper end, 14 range map); part 2: direct non-linear forms (mostly beyond z3, not registered); col=j restricts to one column",
+        ["linfa_preprocessing::linear_scaling::ScalingMethod::{fit,standardize,min_max,max_abs}", "LinearScalerParams::fit", "LinearScaler::{offsets,scales}", "<LinearScaler as Transformer<Array2>>::transform", "<LinearScaler as Transformer<DatasetBase>>::transform", "ndarray mean_axis / std_axis (running mean), linfa_linalg::norm::Norm::norm_max"],
+        ["entries are integers in [-B,B], min-max range ends integers in [-R,R]", "f64 only", "sqrt / division are rounded: obligations on scales and outputs carry tolerances 2^-30 relative to the largest magnitude on the domain", "standard: unit variance is stated as out*std == x-mean with n^2 std^2 == n sum x^2 - (sum x)^2 (std = ndarray's std_axis of the column as auxiliary value); min-max: both range ends attained is stated as out == min + u (max-min) with min u == 0, max u == 1", "the integer-grid fact n^2 Var == 0 or >= 1 is stated as a hint so that the solver can refute 0 < std <= epsilon on the constant-column guard"]);
     harness!(v, "c16.norm", "C16", norm,
-        "NormScaler (norm 1 l1, 2 l2, 3 max) on a symbolic n x p integer matrix: unit norm, direction kept, finite, row-wise (reordered / single rows identical), metadata; zero=i makes row i all-zero",
+        "NormScaler (norm 1 l1, 2 l2, 3 max) on a symbolic n x p integer matrix: ob 1 unit norm directly, 2 output * N == input, 3 N is the norm of the input row; finite, row-wise (reordered / single rows identical), dataset vs array identical, metadata; zero=i makes row i all-zero and demands finite output (recorded defect)",
         ["<linfa_preprocessing::norm_scaling::NormScaler as Transformer<Array2>>::transform", "<NormScaler as Transformer<DatasetBase>>::transform", "linfa_linalg::norm::Norm::{norm_l1,norm_l2,norm_max}"],
         ["entries are integers in [-B,B]", "rows other than the `zero` row are non-zero"]);
     harness!(v, "c16.errors", "C16", errors,
